@@ -229,6 +229,23 @@ def time_limit(seconds):
         signal.signal(signal.SIGALRM, old)
 
 
+def touch_same_index(det, X):
+    """Call predict once on OTHER values carrying exactly X's shape and index (after fit, before the observed calls):
+    whatever a detector remembers under the index / shape of an earlier input must not reach the result for X
+    (seeded changes C08-d and C10-e: score caches keyed on X.index only)."""
+    import numpy as np
+
+    W = -np.roll(np.asarray(X, dtype=float), 1, axis=0) + 0.25 * (np.arange(len(X)) % 3)[:, None]
+    if hasattr(X, "index"):
+        import pandas as pd
+
+        W = pd.DataFrame(W, index=X.index, columns=getattr(X, "columns", None))
+    try:
+        det.predict(W)
+    except (RuntimeError, ValueError):
+        pass   # e.g. a singular covariance slice in W: the detector is still fitted and must answer for X
+
+
 def chunks(xs, n):
     for i in range(0, len(xs), n):
         yield xs[i:i + n]
